@@ -325,7 +325,7 @@ def _kc_job(args):
     return getattr(mod, fn)(*a)
 
 
-def run_kcrypto(c, res, pid, fn, n, seed, extra=(), stream='K-crypto', lib2=None, lib_override=None, classify=None):
+def run_kcrypto(c, res, pid, fn, n, seed, extra=(), stream='K-crypto', lib2=None, lib_override=None, classify=None, accept=None):
     import multiprocessing
     stats = {'sequences': 0, 'calls': 0, 'findings': 0, 'model_disagreements': 0, 'model_evaluations': 0, 'op_kinds': {}}
     seen = set()
@@ -344,6 +344,8 @@ def run_kcrypto(c, res, pid, fn, n, seed, extra=(), stream='K-crypto', lib2=None
             if len(samples) < 2:
                 samples.append([l[:90] + '  =>  ' + ' '.join('%s=%s' % (k, str(v)[:40]) for k, v in r.items() if k in ('rv', 'len', 'h')) for l, r in tr[8:40]])
             for msg, j in out['findings']:
+                if accept and not accept(msg):
+                    continue            # a finding of this stream that is another property's business
                 kf = classify(msg) if classify else None
                 if kf:
                     stats['known_findings'] = stats.get('known_findings', 0) + 1
@@ -415,6 +417,10 @@ def store_sweep(c, res, pid, tier, seed, modes, codecdrv=None):
             ev = ref['events']
             stats['scenarios'][sc['name']] = {'events': len(ev), 'rv': ref['rv']}
             pts = set(kstore.sample_points(len(ev), budget, rng))
+            # the moments right after an event that changes the directory structure are always explored (a new directory
+            # without its files, a file that has just been truncated or removed): at most 40 more points per scenario
+            struct = [k + 1 for k, (f, n) in enumerate(ev, 1) if f in ('mkdir', 'remove', 'rename', 'ftruncate', 'rmdir')]
+            pts |= set(struct[:20] + struct[-20:])
             cnt = {}
             for k, (f, n) in enumerate(ev, 1):
                 cnt[f] = cnt.get(f, 0) + 1
@@ -681,11 +687,11 @@ def check_C18(res, tier, seed):
     # free-running read-only stress: 8 threads, no schedule control (run a few at a time: each run is 8 busy threads)
     nstress, iters = (6, 400) if tier == 'quick' else (60, 1500)
     with multiprocessing.Pool(2) as pool:
-        stress = pool.map(kthread.stress_case, [(thr, c.lib, 8, iters, i) for i in range(nstress)])
+        stress = pool.map(kthread.stress_case, [(thr, c.lib, 8, iters, i, 'stress' if i % 2 == 0 else 'stressos') for i in range(nstress)])
     byclass, reported = {}, 0
     sbad = [x for x in stress if x['finding']]
     for x in sbad[:2]:
-        res.violation('C18: ' + x['finding'], {'kind': 'thread-stress', 'threads': 8, 'iterations': iters, 'observed': x['raw'],
+        res.violation('C18: ' + x['finding'], {'kind': 'thread-stress', 'threads': 8, 'iterations': iters, 'observed': x['raw'], 'mode': 'stressos' if x['i'] % 2 else 'stress',
                                                'how': 'harness/thrdrv <libsofthsm2.so> stress 8 %d with SOFTHSM2_CONF pointing at an empty token directory (repeat: the failure depends on the schedule)' % iters})
     for r in results:
         for msg in r['findings']:
@@ -714,7 +720,7 @@ def check_C18(res, tier, seed):
     res.coverage.update({'evaluations': len(jobs), 'distinct_nontrivial': len(jobs),
                          'rule': '14 two-thread scenarios (search / search on unregistered and registered token objects, private reads, create / create, create / search, session-object create / search, destroy / read, set / read, logout / private read, open / close session, HMAC / HMAC with one key, generate / generate, search / create, read / close): locking enabled with application mutex callbacks; thread A is stopped before each of its LockMutex calls in turn (quick: first 16, last 16 and 16 random ones per scenario) while thread B runs its whole call; the outcome (both return codes and outputs, final object set, handle uniqueness) must equal that of A;B or of B;A run without concurrency; plus free-running repetitions; a run that does not finish in 25 s is a deadlock; plus stress runs of 8 free-running threads that only read unchanging objects (answers must equal the sequential ones; a signal is a crash)',
                          'stress': {'runs': nstress, 'threads': 8, 'iterations_per_thread': iters, 'calls': sum(x.get('calls', 0) for x in stress), 'failed_runs': len(sbad),
-                                    'what': 'private and public CKA_VALUE reads, search, AES-ECB encryption under a private token key; each thread its own session; answers compared with a sequential run'},
+                                    'what': 'private and public CKA_VALUE reads, search, AES-ECB encryption under a private token key; each thread its own session; answers compared with a sequential run; every other run uses CKF_OS_LOCKING_OK after an unlocked C_Initialize(NULL) / C_Finalize cycle instead of mutex callbacks'},
                          'scenarios': info, 'findings_by_class': byclass, 'traces_validated_against_impl': len(jobs),
                          'not_covered': 'more than two threads under schedule control, more than one stop point per call, OS locking (CKF_OS_LOCKING_OK) instead of callbacks, data races without a visible effect (no ThreadSanitizer run), SQLite backend'})
     finish_proof_side(c, res, 'C18')
@@ -780,11 +786,24 @@ def kapi_check(pid, profile, monitor_name, rule, nq=400, nt=12000, nops=45):
     return f
 
 
+def check_C11(res, tier, seed):
+    c = prepare('C11', res)
+    n = 400 if tier == 'quick' else 12000
+    stats, samples = run_kapi(c, res, 'C11', 'handles', n, 45 if tier == 'quick' else 65, seed, 'monitor_c11')
+    # handles die only through close / logout / destroy: a call that FAILS must not take an object (and its handle) with it.
+    # The K-reject stream (C09) is read for exactly that: objects that disappeared behind a rejected call.  The driver leaves
+    # the handle of the object created last in the output variable of every creating call (an application may).
+    st2, distinct2, samples2 = run_kcrypto(c, res, 'C11', 'seq_reject', 100 if tier == 'quick' else 2500, seed, stream='K-reject', accept=lambda m: 'disappeared' in m)
+    res.coverage.update({'evaluations': stats['ops'] + st2['calls'], 'distinct_nontrivial': stats['distinct_traces'] + distinct2, 'rule': (RULE % 'handles') + '; K-reject: rejected creating / changing calls must not make any object disappear',
+                         'samples': samples, 'k_api': stats, 'k_reject': st2, 'traces_validated_against_impl': stats['sequences'] + st2['sequences']})
+    finish_proof_side(c, res, 'C11')
+
+
 RULE = 'model-guided random call sequences over 2 tokens and up to ~8 sessions (%s profile of tools/genapi.py); a trace is non-trivial when at least 3 calls after the prelude succeed; distinct = distinct (op, rv) sequences'
 CHECKS = {'C03': check_C03, 'C07': check_C07, 'C05': check_C05, 'C09': check_C09, 'C16': check_C16, 'C14': check_C14, 'C17': check_C17, 'C20': check_C20, 'C15': check_C15, 'C06': check_C06, 'C18': check_C18, 'C12': check_C12, 'C02': attr_check('C02'), 'C08': attr_check('C08'), 'C10': check_C10, 'C13': check_C13,
           'C01': check_C01,
           'C04': kapi_check('C04', 'pins', 'monitor_c03', RULE % 'pins'),
-          'C11': kapi_check('C11', 'handles', 'monitor_c11', RULE % 'handles'),
+          'C11': check_C11,
           'C19': kapi_check('C19', 'find', 'monitor_c19', RULE % 'find')}
 
 
@@ -824,7 +843,7 @@ def replay(pid, path):
         print('  observed now: %s' % out['raw'])
         failed = bool(out['findings'])
     elif kind == 'thread-stress':
-        outs = [kthread.stress_case((c.harness['thrdrv'], c.lib, int(r['threads']), int(r['iterations']), i)) for i in range(10)]
+        outs = [kthread.stress_case((c.harness['thrdrv'], c.lib, int(r['threads']), int(r['iterations']), i, r.get('mode', 'stress'))) for i in range(10)]
         bad = [o for o in outs if o['finding']]
         print('  10 stress runs now: %d failed%s' % (len(bad), (': ' + bad[0]['finding'][:200]) if bad else ''))
         failed = bool(bad)
